@@ -48,6 +48,29 @@ class Mod(object):
         for node in ast.walk(self.tree):
             if isinstance(node, ast.Global):
                 self.shared.update(node.names)
+        # module-level names bound to a mutable container (dict/list/set: a memo, a registry) that
+        # some function mutates are shared state as well, although no `global` statement is needed
+        MUT = {'update', 'append', 'extend', 'insert', 'pop', 'remove', 'clear', 'setdefault', 'add', 'discard',
+               'popitem', '__setitem__', 'sort', 'reverse'}
+        containers = set(n for n, v in vars(self.py).items()
+                         if isinstance(v, (dict, list, set)) and not n.startswith('__'))
+        self.containers = set()
+        for fn in ast.walk(self.tree):
+            if not isinstance(fn, (ast.FunctionDef, ast.Lambda)):
+                continue
+            for node in ast.walk(fn):
+                tgt = []
+                if isinstance(node, ast.Assign):
+                    tgt = node.targets
+                elif isinstance(node, (ast.AugAssign, ast.AnnAssign)):
+                    tgt = [node.target]
+                for t in tgt:
+                    if isinstance(t, ast.Subscript) and isinstance(t.value, ast.Name) and t.value.id in containers:
+                        self.containers.add(t.value.id)
+                if isinstance(node, ast.Call) and isinstance(node.func, ast.Attribute) and node.func.attr in MUT \
+                        and isinstance(node.func.value, ast.Name) and node.func.value.id in containers:
+                    self.containers.add(node.func.value.id)
+        self.shared |= self.containers
         # names imported from sibling modules: local name -> (module, function)
         top = list(self.tree.body)
         for node in list(top):
@@ -161,6 +184,11 @@ class Extractor(object):
                     parts.append(self.expr(a, ctx))
             if not isinstance(e.func, ast.Name):
                 parts.append(self.expr(e.func, ctx))
+                if isinstance(e.func, ast.Attribute) and isinstance(e.func.value, ast.Name) \
+                        and e.func.value.id in getattr(m, 'containers', ()) and e.func.value.id not in fn_locals \
+                        and e.func.attr in ('update', 'append', 'extend', 'insert', 'pop', 'remove', 'clear', 'setdefault',
+                                            'add', 'discard', 'popitem', 'sort', 'reverse'):
+                    parts.append(('w', self.loc(m, e.func.value.id)))
             callee = self.resolve(e.func, ctx)
             if callee is not None:
                 parts.append(self.inline(callee[0], callee[1], stack))
@@ -579,8 +607,6 @@ class EffectsModel(object):
                 cx = ClassExtractor(cls)
             except Exception:
                 continue
-            if not cx.attrs:
-                continue
             owner = next((k for k in cls.__mro__ if '_run' in vars(k)), None)
             if owner is None or owner in seen:
                 continue
@@ -590,6 +616,8 @@ class EffectsModel(object):
             except Exception as e_:
                 ex.notes.append('class %s: %s' % (path, e_))
                 continue
+            if ir == ('skip',) and not cx.attrs:
+                continue            # the call touches no shared mutable state at all
             base = len(ex.locs)
             # re-index the class extractor's locations after the module-level ones
             remap = {}
